@@ -131,6 +131,16 @@ impl<C> Server<C> {
         self.rrl = rrl_params.map(Rrl::new);
     }
 
+    /// Verification hook: simulates the passage of `secs` seconds for
+    /// response rate-limiting (see `Rrl::verif_shift`). Does nothing if
+    /// RRL is disabled.
+    #[cfg(feature = "verif_hooks")]
+    pub fn verif_rrl_shift(&self, secs: u64) {
+        if let Some(ref rrl) = self.rrl {
+            rrl.verif_shift(secs);
+        }
+    }
+
     /// Returns the `Server`'s current set of TSIG keys.
     pub fn tsig_keys(&self) -> Arc<TsigKeyMap> {
         self.tsig_keys.read().unwrap().clone()
